@@ -58,8 +58,12 @@ package parser
 //@   ensures[C07 C01] tokens-are-handed-over-one-at-a-time: chancap(result.token) == 0
 //@   ensures[C01 C08] one-pending-notification-for-here-documents: chancap(result.heredoc.c) == 1
 
+// Every token Lex delivers has had its position stored first: the parser
+// reports a syntax error at the position of the last token it was given, and
+// Error reads that position without a check.
 //@ func (*lexer).Lex
 //@   requires lval != nil
+//@   ensures[C01 C03] every-token-delivered-has-stored-its-position: result != 0 ==> atomicval(l.last) is ast.Pos
 
 // Error is called by the generated parser after at least one Lex, which has
 // stored a position; that is a fact about the driver, not about this code.
